@@ -252,7 +252,17 @@ fn scan_logs(logs: &[LogRec], out: &mut Outcome) {
     for r in logs {
         for (class, form, needle) in &forms {
             if r.text.contains(needle.as_str()) {
+                // the harness's own TLS and HTTP/2 clients log through the same facade: what a
+                // client-side module says about the name it connects to is not the endpoint's
+                if r.file.contains("/src/client/") || r.file.contains("/verif/") {
+                    continue;
+                }
                 let file = r.file.rsplit("/repo/").next().unwrap_or(&r.file);
+                // third-party crates: crate-version/path, without the registry directory
+                let file = match file.rsplit_once("registry/src/") {
+                    Some((_, rest)) => rest.split_once('/').map(|x| x.1).unwrap_or(rest),
+                    None => file,
+                };
                 out.violate(
                     "C20",
                     format!("leak:{}:{}@{}:{}", class, form, file, r.line),
